@@ -37,6 +37,7 @@ mod tables_prec;
 mod tables_lower;
 mod e2e;
 mod jsontext;
+mod f64cases;
 
 fn main() {
     util::silence_panics();
